@@ -372,7 +372,7 @@ fn one_mutant(c: &mut Ctx, fam: &str, idx: u64, rng: &mut Rng, t: u16, fs: &[Fv]
 pub fn run(c: &mut Ctx) {
     let mut per_type: BTreeMap<String, u64> = BTreeMap::new();
     let fam = "values";
-    let total = c.total(120_000, 12_000_000);
+    let total = c.total(800_000, 16_000_000);
     for idx in c.cases(fam, total) {
         if c.out_of_time() {
             break;
